@@ -127,6 +127,13 @@ const EAFNOSUPPORT: i32 = 97;
 /// (real Linux; `ErrorKind::FileTooLarge` is unstable).
 pub(crate) const EMSGSIZE: i32 = 90;
 
+/// The part of a socket address that travels in a packet: address and
+/// port. An IPv6 `scope_id` / `flowinfo` names a local interface or a
+/// flow label, not the peer, and must not take part in demultiplexing.
+pub(crate) fn wire_addr(sa: SocketAddr) -> SocketAddr {
+    SocketAddr::new(sa.ip(), sa.port())
+}
+
 /// A per-host network stack.
 ///
 /// Owns the socket table and the inbound/outbound packet queues. Does
